@@ -126,7 +126,10 @@ VarsXYZ == {"$x", "$y", "$z"}
 NoInts == [i \in {} |-> 0]
 PairsTyped == {<<"i:1", "i:2">>, <<"i:1", "d:1">>, <<"i:1", "b:t">>, <<"s:a", "s:b">>, <<"s:1", "i:1">>,
                <<"b:t", "b:f">>, <<"d:1", "d:2">>, <<"y:01", "y:02">>, <<"n:", "i:0">>, <<"set:1", "set:2">>,
-               <<"set:1", "arr:1">>, <<"arr:1", "arr:2">>, <<"map:1", "map:2">>, <<"y:01", "s:a">>}
+               <<"set:1", "arr:1">>, <<"arr:1", "arr:2">>, <<"map:1", "map:2">>, <<"y:01", "s:a">>,
+               \* collections that differ in one element only (same size / same keys / same shape, other value, also at depth 2):
+               \* ground terms are compared structurally to full depth wherever a variable is bound twice or a constant is matched
+               <<"set:1", "set:3">>, <<"arr:1", "arr:3">>, <<"arr:4", "arr:5">>, <<"map:1", "map:3">>, <<"map:4", "map:5">>}
 PairsFew == {<<"i:1", "i:2">>, <<"s:a", "i:1">>, <<"set:1", "arr:1">>}
 Origins4 == {{0}, {1}, {0, 1}, {AZ}}
 Origins3 == {{0}, {1}, {0, 1}}
